@@ -54,8 +54,8 @@ def classify(lines, idx, what):
     if what.startswith("transformer:"):
         chain = chain_of(lines, idx, t[1])
         real = [o for o in chain if o not in REFINES] or chain
-        m = re.search(r"\(component (\d)\)", what)
-        culprit = kinds[int(m.group(1)) - 1] if m else "?"
+        m = re.search(r"\(component ([0-9+?]+)\)", what)
+        culprit = kinds[int(m.group(1)) - 1] if m and m.group(1) in ("1", "2") else "?"
         tags += ["chain_" + o for o in sorted(set(chain))] + ["culprit_" + culprit]
         site = "transformer:" + (real[-1] if real else "?")
         if "diff" in chain:
@@ -65,9 +65,10 @@ def classify(lines, idx, what):
             tags.append("componentwise_difference_loses_points")
         elif culprit == "B":
             lossy = [o for o in real if o in BOX_LOSSY]
-            if lossy and all(o in BOX_LOSSY or o in ("closure", "unconstrain") for o in real):
+            if lossy:
                 site = "transformer:Box::" + BOX_LOSSY[lossy[-1]]
                 tags.append("box_component_" + lossy[-1] + "_cuts_image_points")
+                tags.append("box_component_lossy_transformer")
     elif what.startswith("reduce:"):
         site = "reduce:" + pol
     elif what.startswith("smash_propagation"):
@@ -75,6 +76,9 @@ def classify(lines, idx, what):
         tags.append("emptiness_not_propagated")
     elif t[0] == "pq":
         site = "query:" + t[2]
+        if t[2] == "relcg" and "B" in kinds and "is_disjoint reported" in what:
+            # Box::relation_with(Congruence) answers IS_DISJOINT for boxes that meet the congruence (base-level defect)
+            tags.append("box_component_relation_with_congruence_disjoint")
     elif t[0] == "crash":
         prev = [l for l in lines[:idx] if l.split()[0] in ("pop", "pq", "pnew", "pgrid", "pexp")]
         last = prev[-1].split() if prev else ["?", "?", "?"]
